@@ -61,7 +61,7 @@ namespace options
 
             if (!is_value() && !is_double_dash())
             {
-                if (!std::regex_match(arg, std::regex("-{1,2}[^-=]+[^=]*=?.*")))
+                if (!std::regex_match(arg, std::regex("-{1,2}[^-=]+[^=]*=?[\\s\\S]*")))
                 {
                     raise<parsing_error>("The user input couldn't be parsed. (", arg, ")");
                 }
